@@ -16,7 +16,12 @@ import gen_stmt  # noqa: E402
 from sqllineage.runner import LineageRunner  # noqa: E402
 
 # D26: the sqlparse-based (non-validating, deprecated) analyzer ignores an explicit target column list
-KNOWN = {"D26": lambda cid: cid.endswith("/list/non-validating") or cid == "union/explicit/non-validating"}
+# D33: the sqlparse-based analyzer loses the qualifier of an ORDER BY item that is followed by ASC / DESC (`order by y.b2, x.id
+#      desc` inside a window specification): witness family = generated window2 items in multi-relation scopes
+KNOWN = {
+    "D26": lambda cid: cid.endswith("/list/non-validating") or cid == "union/explicit/non-validating",
+    "D33": lambda cid: "/window2/" in cid and cid.endswith("/non-validating") and not cid.endswith("/list/non-validating") and cid.split("/")[0] in ("join2", "join2_noalias", "join_derived", "join3", "alias_case", "cte_join_table", "cte_named_like_table"),
+}
 
 
 # D9: a literal in the first branch of a set operation shifts the positional wiring of the later branches
